@@ -96,6 +96,15 @@ class UnknownOp(Exception):
 SIG_OPS = (171, 172, 173, 174, 175, 186)
 _TX_OPS = (172, 173, 174, 175, 177, 178, 186)
 _state = {"patched": False, "rot6": False}
+CFG = {"tok": "r"}   # driver configuration: "r" = all C07+C06 patches, "p" = C07 patches only (decided by probe_cfg)
+
+
+def probe_cfg():
+    """The C06 patch fix-F06f changes what `evaluate` does with a witness-program pattern in the middle of a
+    script (outside C07's scope, compared with the model only): pick the model variant the code matches."""
+    r = impl_line("eval r 0 0 1 3 o0 x" + "11" * 20 + " o81")
+    CFG["tok"] = "r" if r == "ACCEPT" else "p"
+    return CFG["tok"]
 
 
 def _patch():
@@ -530,6 +539,9 @@ def run(ctx):
     rng, rec = ctx.rng, ctx.rec
     drv = ctx.driver("drv_c07")
     W = ctx.workers
+    if probe_cfg() != "r":
+        rec.note("Script.evaluate still recognises witness programs in the middle of a script (work/C06/fix-F06f.diff "
+                 "not applied): programs with such patterns are compared with the model variant `p`")
     DW = min(4, W)      # the native driver is fast; few processes keep the fork overhead low
 
     # ---------------------------------------------------------------- known / fixed findings: witness replay
@@ -709,7 +721,7 @@ def run(ctx):
         """run one chunk of programs (kind, cmds, locktime, sequence, version) on both sides and record"""
         if not progs:
             return
-        m_lines = [f"eval r {lt} {seq} {ver} {fmt_cmds(c)}" for _, c, lt, seq, ver in progs]
+        m_lines = [f"eval {CFG['tok']} {lt} {seq} {ver} {fmt_cmds(c)}" for _, c, lt, seq, ver in progs]
         s_lines = [f"spec_eval {lt} {seq} {ver} {fmt_cmds(c)}" for _, c, lt, seq, ver in progs]
         both = batch_parallel(drv, m_lines + s_lines, workers=DW)
         mod, spc = both[:len(m_lines)], both[len(m_lines):]
